@@ -23,7 +23,7 @@ LEVEL = 'model_checking'
 TECHNIQUE = 'exhaustive differential exploration: solve() vs ordered solve_t loop on a twin, single fault injected at every period, every (start,end) pair, every span type'
 RULE = ('span types x span length (4 quick / 6 thorough) x every ordered (start,end) over labels+None+absent x fault in '
         '{none, exception, silent non-finite, warning non-finite, non-convergence} at every period of the range x errors x failures x '
-        'min_iter; plus solve_period(label) vs solve_t(pos) for every label, ambiguous year label on a quarterly index, empty span. '
+        'min_iter in {0, 3 = max_iter} x catch_first_error, each compared with the twin loop AND with the statuses the reference state machine prescribes; plus solve_period(label) vs solve_t(pos) for every label, ambiguous year label on a quarterly index, empty span. '
         'states = distinct final observations, transitions = solver calls executed, traces = cases compared with the twin loop; '
         'non-trivial = at least one period solved or a rejection checked')
 ASSUMPTIONS = [
